@@ -1634,8 +1634,8 @@ var c15Histories = []string{"fresh interpreter", "after a successful evaluation"
 	"after an evaluation that does not compile", "after an evaluation that panicked"}
 
 // c15RunHistory evaluates the program (Eval of the single file, or EvalPath on the MapFS tree) on an interpreter with
-// the given history. No real-time bound matters: the cancelled evaluation blocks for ever and is cancelled whenever the
-// timer fires.
+// the given history. No real-time bound matters: the cancelled evaluation is started with a context that is already
+// cancelled.
 func c15RunHistory(files map[string]string, prefix string, viaPath bool, hist int, timeout time.Duration) (res outcome) {
 	mfs := fstest.MapFS{}
 	for fn, src := range files {
@@ -1664,13 +1664,13 @@ func c15RunHistory(files map[string]string, prefix string, viaPath bool, hist in
 				return
 			}
 		case 2:
-			ctx, cancel := context.WithTimeout(context.Background(), 30*time.Millisecond)
-			_, err := i.EvalWithContext(ctx, "c := make(chan int)\n<-c") // blocks for ever without using a processor
+			// An evaluation whose context is already cancelled: EvalWithContext stops the interpreter (the run id
+			// advances) and returns; the evaluation itself is trivial, so its goroutine has nothing left to do when the
+			// program is evaluated next (an evaluation that blocks or loops would still be winding down concurrently).
+			ctx, cancel := context.WithCancel(context.Background())
 			cancel()
-			if err == nil {
-				r.End = "host-crash:prelude: endless loop returned"
-				return
-			}
+			i.EvalWithContext(ctx, "1 + 1")
+			time.Sleep(20 * time.Millisecond)
 		case 3:
 			if _, err := i.Eval("func ("); err == nil {
 				r.End = "host-crash:prelude: syntax error accepted"
